@@ -718,6 +718,9 @@ package bigbuff
 //@   ensures once : sent(out) == old(sent(out)) + 1
 //@   at-call CombineContext#0 sources : arg0 == ctx && len(arg1) == len(cancels) + 1 && arg1[0] == b.ctx && all(i, 0, len(cancels), arg1[i+1] == cancels[i])
 //@   loop WaitCond>0 invariant pending : result.Error == nil && result.Value == nil && inv(b.mutex) && heldW(b.mutex) && sent(out) == old(sent(out)) && !closed(out)
+//@   # the sender parks only after a look at the buffer made since it last woke up (every evaluation of the wait condition
+//@   # consults the buffer): one get per round, found nothing
+//@   loop WaitCond>0 invariant looked : icalls("(*Buffer).get") == icalls("(*sync.Cond).Wait")
 
 //@ func (*Buffer).getAsync$1$1
 //@   props C01 C05
@@ -889,6 +892,8 @@ package bigbuff
 //@   # the iteration goes on exactly while fn wants more and the consumer still has something to read
 //@   ensures more : lastres(fn, 0) ==> icalls("(*Buffer).Diff") == 1 && ret == (ilast("(*Buffer).Diff", 1) && ilast("(*Buffer).Diff", 0) > 0)
 //@   at-call dynamic#0 args : arg0 == index && arg1 == value
+//@   # what is left is looked up only after fn has seen the current value (a Put made by fn itself counts)
+//@   at-call (*Buffer).Diff#0 afterfn : calls(fn) == 1 && lastres(fn, 0)
 
 //@ func (*Channel).pending
 //@   props C13
